@@ -139,6 +139,9 @@ class Comparer(object):
             if (isinstance(p, ast.Assign) and f == 'value' and self._in_class_body.get(id(p))
                     and any(isinstance(t, ast.Name) and t.id == '__slots__' for t in p.targets)):
                 nh = 'deep'
+            if (isinstance(p, (ast.AnnAssign, ast.AugAssign)) and f == 'value' and self._in_class_body.get(id(p))
+                    and isinstance(p.target, ast.Name) and p.target.id == '__slots__'):
+                nh = 'deep'
             if isinstance(a, ast.AST):
                 if not isinstance(b, ast.AST):
                     raise Mismatch('%s.%s missing' % (type(p).__name__, f))
